@@ -29,14 +29,15 @@ N == Len(Rec)
 Res == {"tsm", "tls", "closure", "stack"}
 
 VARIABLES i, run, ran, fin, spawned, hs, st, relby, nval, nvalfreed, synced, exitSeen, dvd,
-          dvgiven, viol, accepted, nruns
+          dvgiven, viol, accepted, nruns, nother, notherfreed
 vars == <<i, run, ran, fin, spawned, hs, st, relby, nval, nvalfreed, synced, exitSeen, dvd,
-          dvgiven, viol, accepted, nruns>>
+          dvgiven, viol, accepted, nruns, nother, notherfreed>>
 
 Fresh ==
     /\ ran = 0 /\ fin = "no" /\ spawned = "no" /\ hs = "none"
     /\ st = [r \in Res |-> "none"] /\ relby = [r \in Res |-> "-"]
     /\ nval = 0 /\ nvalfreed = 0 /\ synced = FALSE /\ exitSeen = FALSE /\ dvd = 0 /\ dvgiven = FALSE
+    /\ nother = 0 /\ notherfreed = 0
 
 Init ==
     /\ i = 1 /\ run = 0 /\ viol = <<>> /\ accepted = 0 /\ nruns = 0
@@ -101,6 +102,10 @@ Broken(e) ==
             \cup (IF e.sys /\ st["stack"] = "live" THEN {"leak_stack"} ELSE {})
             \cup (IF st["closure"] = "live" /\ fin # "panic" THEN {"leak_closure"} ELSE {})
             \cup (IF nvalfreed < nval /\ fin = "ret" /\ hs \in {"joined", "dropped"} THEN {"result_not_dropped"} ELSE {})
+            \* r = "other": a heap block spawn allocated that has none of the announced roles (e.g. a
+            \* block allocated on a path that returns before its role is announced): it belongs to the
+            \* runtime like the others and must be gone at quiescence, whatever spawn returned
+            \cup (IF notherfreed < nother THEN {"leak_spawn_block"} ELSE {})
             \cup (IF e.dv /\ fin = "ret" /\ hs \in {"joined", "dropped"} /\ dvd = 0 THEN {"result_not_dropped"} ELSE {})
       [] e.e = "batch" ->
             (IF e.badfree > 0 THEN {"bad_free_unattributed"} ELSE {})
@@ -124,6 +129,8 @@ Apply(e) ==
     /\ relby' = IF e.e = "rel" /\ e.r \in Res /\ st[e.r] = "live" THEN [relby EXCEPT ![e.r] = e.by] ELSE relby
     /\ nval' = IF e.e = "acq" /\ e.r = "val" THEN nval + 1 ELSE nval
     /\ nvalfreed' = IF e.e = "rel" /\ e.r = "val" THEN nvalfreed + 1 ELSE nvalfreed
+    /\ nother' = IF e.e = "acq" /\ e.r = "other" THEN nother + 1 ELSE nother
+    /\ notherfreed' = IF e.e = "rel" /\ e.r = "other" THEN notherfreed + 1 ELSE notherfreed
     /\ synced' = (synced \/ (e.e = "xload" /\ e.val = 0 /\ e.acq))
     /\ exitSeen' = (exitSeen \/ (e.e = "xload" /\ e.val = 0))
     /\ dvd' = IF e.e = "vdrop" THEN dvd + 1 ELSE dvd
@@ -138,6 +145,7 @@ Step ==
             /\ ran' = 0 /\ fin' = "no" /\ spawned' = "no" /\ hs' = "none"
             /\ st' = [r \in Res |-> "none"] /\ relby' = [r \in Res |-> "-"]
             /\ nval' = 0 /\ nvalfreed' = 0 /\ synced' = FALSE /\ exitSeen' = FALSE /\ dvd' = 0 /\ dvgiven' = FALSE
+            /\ nother' = 0 /\ notherfreed' = 0
             /\ UNCHANGED <<viol, accepted>>
        ELSE /\ LET b == Broken(e) IN
                  viol' = IF b = {} THEN viol ELSE Append(viol, [run |-> run, at |-> i, rules |-> b])
